@@ -206,6 +206,21 @@ func (w *World) expandOps(in []Op) []Op {
 	return out
 }
 
+// HasTopLevelFeeOp: the transaction carries a WRKChain/BEACON message at top level (where the ante decorators see it).
+func (bt *BuiltTx) HasTopLevelFeeOp() bool {
+	switch bt.Tx.Wrap {
+	case WrapTop:
+		for _, o := range bt.Ops {
+			if o.IsFeeOp {
+				return true
+			}
+		}
+	case WrapExecTail:
+		return len(bt.Ops) > 0 && bt.Ops[0].IsFeeOp
+	}
+	return false
+}
+
 // BuildTx resolves, wraps, prices and signs a transaction against the current state.
 func (w *World) BuildTx(t *Tx, forCheck bool) *BuiltTx {
 	bt := &BuiltTx{Tx: t, Snap: map[string]interface{}{}}
@@ -237,7 +252,10 @@ func (w *World) BuildTx(t *Tx, forCheck bool) *BuiltTx {
 			signers = append(signers, bo.Signer)
 		}
 		e := bo.Expect
-		if wrapped {
+		if t.Wrap == WrapExecTail && i == 0 && bo.Signer.Acct != nil {
+			granteeIdx = bo.Signer.Acct.Idx
+		}
+		if wrapped || (t.Wrap == WrapExecTail && i > 0 && granteeIdx >= 0) {
 			// inside an exec wrapper the named party does not sign; it must have granted the grantee
 			e = bo.ModelExpect
 			grantee := w.acct(granteeIdx)
@@ -275,6 +293,14 @@ func (w *World) BuildTx(t *Tx, forCheck bool) *BuiltTx {
 		verdict = Either
 	}
 	switch t.Wrap {
+	case WrapExecTail:
+		if len(msgs) >= 2 && granteeIdx >= 0 {
+			grantee := w.acct(granteeIdx)
+			exec := authz.NewMsgExec(grantee.Bytes, msgs[1:])
+			msgs = []sdk.Msg{msgs[0], &exec}
+			signers = []Addr{bt.Ops[0].Signer}
+			w.Class("tx.top-level-message-plus-exec-tail")
+		}
 	case WrapExec, WrapExec2:
 		grantee := w.acct(granteeIdx)
 		exec := authz.NewMsgExec(grantee.Bytes, msgs)
